@@ -421,3 +421,50 @@ Theorem C20_Inv_inside_new_phase : forall cfg s,
   forall k, Inv cfg (fold_left (new_one cfg) (firstn k (due (newq s) (height s))) s).
 Proof. exact AmountBounds.Inv_inside_new_phase. Qed.
 Print Assumptions C20_Inv_inside_new_phase.
+
+(* ------------------------------------------------------------------ *)
+(* representation independence (Proofs/GapC20.v): EndBlock's result does not depend on the order in
+   which the two queues are held (the code iterates store ranges, the model keeps lists), post-processing
+   that only emits events (the providerRequests grouping of abci.go) cannot change any balance or record,
+   and the genesis import does not depend on the order of the withdraw-address and context lists.
+   QEq s s' : s and s' are the same state up to a permutation of expq and newq. *)
+From SVC Require Import Model.Genesis.
+From SVC Require Proofs.GapC20 Proofs.GenesisProofs.
+
+Theorem C20_end_block_queue_order_irrelevant : forall (cfg : Params) (s s' : State) (dt : Z),
+  GapC20.QEq s s' -> GapC20.QEq (end_block cfg s dt) (end_block cfg s' dt).
+Proof. exact GapC20.C20_end_block_queue_order_irrelevant. Qed.
+Print Assumptions C20_end_block_queue_order_irrelevant.
+
+Theorem C20_end_block_permuted : forall (cfg : Params) (s : State) (dt : Z) (e n : list (Z * CtxId)),
+  Permutation (expq s) e -> Permutation (newq s) n ->
+  let a := end_block cfg s dt in
+  let b := end_block cfg (set_newq (set_expq s e) n) dt in
+  ctxs b = ctxs a /\ reqs b = reqs a /\ resps b = resps a /\ binds b = binds a /\ bank b = bank a
+  /\ supply b = supply a /\ earned b = earned a /\ own_earned b = own_earned a /\ vols b = vols a
+  /\ expq_h b = expq_h a /\ newq_h b = newq_h a /\ log b = log a /\ height b = height a /\ time b = time a
+  /\ Permutation (expq a) (expq b) /\ Permutation (newq a) (newq b).
+Proof. exact GapC20.C20_end_block_permuted. Qed.
+Print Assumptions C20_end_block_permuted.
+
+Theorem C20_grouping_irrelevant : forall (cfg : Params) (s : State) (dt : Z) (evs evs' : list Event),
+  Permutation evs evs' ->
+  let a := GapC20.emit_all evs (end_block cfg s dt) in
+  let b := GapC20.emit_all evs' (end_block cfg s dt) in
+  set_log a (log (end_block cfg s dt)) = end_block cfg s dt
+  /\ set_log b (log (end_block cfg s dt)) = end_block cfg s dt
+  /\ (forall x : Acct, bal a x = bal b x) /\ bank a = bank b /\ ctxs a = ctxs b /\ reqs a = reqs b
+  /\ Permutation (log a) (log b).
+Proof. exact GapC20.C20_grouping_irrelevant. Qed.
+Print Assumptions C20_grouping_irrelevant.
+
+Theorem C20_import_order_irrelevant : forall (h t : Z) (g g' : Genesis),
+  GenesisProofs.genesis_wf g -> g_params g' = g_params g -> g_defs g' = g_defs g -> g_binds g' = g_binds g ->
+  Permutation (g_wd g) (g_wd g') -> Permutation (g_ctxs g) (g_ctxs g') ->
+  let a := import_genesis h t g in
+  let b := import_genesis h t g' in
+  (forall o : Z, get o (wdaddr b) = get o (wdaddr a)) /\ (forall c : CtxId, get c (ctxs b) = get c (ctxs a))
+  /\ defs b = defs a /\ binds b = binds a /\ pricing b = pricing a
+  /\ owner_of b = owner_of a /\ own_prov b = own_prov a /\ own_bind b = own_bind a.
+Proof. exact GapC20.C20_import_order_irrelevant. Qed.
+Print Assumptions C20_import_order_irrelevant.
